@@ -181,6 +181,9 @@ func (w *worker) execServer(c *mc.Ctx, cs Case) string {
 	n200 := len(fin)
 	if rejected {
 		n200--
+		c.Distinct("outcomes", fmt.Sprintf("rejected-with-%d after %d handled", fin[len(fin)-1].Status, len(res.Seen)))
+	} else {
+		c.Distinct("outcomes", fmt.Sprintf("handled=%d closed=%v err=%v", len(res.Seen), res.Closed, res.Err != nil))
 	}
 	if n200 != len(res.Seen) {
 		c.Violate("handler-response-mismatch|"+mode, fmt.Sprintf("%d handler runs but %d success responses\ninput=%q\noutput=%q", len(res.Seen), n200, cs.Input, clip(string(res.Out), 600)), cs)
